@@ -19,9 +19,15 @@ def sub_assignments(nodes, max_size):
     return out
 
 
-def event_items(nodes, max_sub):
+def event_items(nodes, max_sub, reflexive=True):
     """All event items (name, subs, star): 'name under interventions subs takes value -name/+name'."""
-    return [(v, subs, star) for v in nodes for subs in sub_assignments(nodes, max_sub) for star in (False, True)]
+    return [
+        (v, subs, star)
+        for v in nodes
+        for subs in sub_assignments(nodes, max_sub)
+        for star in (False, True)
+        if reflexive or v not in dict(subs)
+    ]
 
 
 def item_key(item):
@@ -36,13 +42,13 @@ def to_event(items):
     return {item_key(it): Intervention(name=it[0], star=it[2]) for it in items}
 
 
-def events(nodes, m, sub_single, sub_multi):
+def events(nodes, m, sub_single, sub_multi, reflexive=True):
     """All conjunctions of 1..m items with distinct keys (a dict cannot hold one key twice)."""
-    singles = event_items(nodes, sub_single)
+    singles = event_items(nodes, sub_single, reflexive)
     for it in singles:
         yield (it,)
     if m >= 2:
-        multi = event_items(nodes, sub_multi)
+        multi = event_items(nodes, sub_multi, reflexive)
         for r in range(2, m + 1):
             for combo in itt.combinations(multi, r):
                 keys = {(it[0], it[1]) for it in combo}
